@@ -136,6 +136,13 @@ CRYSTALS = {
         choices=[(np.diag([2, 2, 1]), "P"), (np.diag([2, 2, 2]), "P"), (np.array([[1, 1, 0], [0, 2, 0], [0, 0, 2]]), "P"), (np.diag([2, 1, 2]), "auto")],
         nac=True, eps="tric",
     ),
+    "perovskite": dict(  # cubic ABO3: the three O atoms carry uniaxial Born tensors related by the 3-fold axes
+        lattice=np.eye(3) * 3.905,
+        symbols=["Sr", "Ti", "O", "O", "O"],
+        positions=[[0, 0, 0], [0.5, 0.5, 0.5], [0.5, 0.5, 0], [0.5, 0, 0.5], [0, 0.5, 0.5]],
+        choices=[(np.diag([1, 1, 1]), "P"), (np.diag([2, 2, 1]), "P"), (np.diag([2, 2, 2]), "P"), (np.diag([2, 1, 1]), "auto")],
+        nac=True, eps="cubic",
+    ),
     "nacl_mixed_out": dict(  # interleaved species, positions outside [0,1)
         lattice=np.eye(3) * 5.69,
         symbols=["Na", "Cl", "Na", "Cl", "Na", "Cl", "Na", "Cl"],
@@ -145,7 +152,7 @@ CRYSTALS = {
     ),
 }
 
-SMALL = ["nacl_prim", "cscl", "hcp", "bcc_afm", "bct", "rhombo_hex", "wurtzite", "tric", "mono", "ortho_c", "rutile", "si", "nacl"]
+SMALL = ["perovskite", "nacl_prim", "cscl", "hcp", "bcc_afm", "bct", "rhombo_hex", "wurtzite", "tric", "mono", "ortho_c", "rutile", "si", "nacl"]
 
 
 class World:
@@ -187,7 +194,8 @@ class World:
         if force_nac is not None and not c.get("nac"):
             nac = None
         spec = dict(crystal=name, supercell_matrix=np.array(smat).tolist(), primitive_matrix=pmat, springs=springs, nac=nac,
-                    z=round(rng.uniform(0.6, 1.8), 3), eps=[round(rng.uniform(2.0, 5.0), 3) for _ in range(4)])
+                    z=round(rng.uniform(0.6, 1.8), 3), eps=[round(rng.uniform(2.0, 5.0), 3) for _ in range(4)],
+                    born_aniso=rng.choice([0.0, 0.25, 0.4]))
         return World(spec)
 
     # ---- phonopy objects
@@ -276,6 +284,26 @@ class World:
             eps = np.array([[e[0], 0, 0.2], [0, e[1], 0], [0.2, 0, e[2]]])
         else:
             eps = np.array([[e[0], 0.1, 0.2], [0.1, e[1], -0.15], [0.2, -0.15, e[2]]])
+        amp = float(self.spec.get("born_aniso", 0.0))
+        if amp > 0:
+            # anisotropic, site-dependent Born tensors: seeded perturbation, made neutral, then projected onto the crystal's
+            # symmetry with phonopy's own symmetriser (worlds are input generation; this only has to yield a *valid* input)
+            from phonopy.structure.symmetry import symmetrize_borns_and_epsilon
+
+            g = np.random.Generator(np.random.PCG64(int(z * 1000) + 7919 * len(sym)))
+            born = born + amp * z * g.standard_normal(born.shape)
+            born -= born.mean(axis=0)[None, :, :]
+            import contextlib
+            import io
+
+            import warnings
+
+            with contextlib.redirect_stdout(io.StringIO()), warnings.catch_warnings():
+                warnings.simplefilter("ignore")
+                born, eps = symmetrize_borns_and_epsilon(born, eps, primitive)
+            born = np.array(born, dtype="double", order="C")
+            eps = np.array(eps, dtype="double", order="C")
+            born -= born.mean(axis=0)[None, :, :]
         from phonopy.interface.calculator import get_default_physical_units
 
         return {"born": born, "dielectric": eps, "factor": get_default_physical_units("vasp")["nac_factor"], "method": self.nac_method}
